@@ -52,8 +52,11 @@ def plan(tier, prop):
                         "n_tries": "0-3", "wait": [True, False],
                         "use_count": [True, False]},
         "assumptions": [
-            "use_count=True only when its documented precondition holds (the "
-            "targets are all waiting cores of that application id)",
+            "use_count=True is documented to assume the targets are all "
+            "waiting cores of that application id: with cores left waiting by "
+            "an earlier load, a run in which the machine-wide count happens to "
+            "equal the number requested although cores were missed is not "
+            "judged (the documented limitation); every other outcome is",
             "signals are not lost (documented as unreliable, not claimed)",
             "APLX files are whole words; buffer sizes are multiples of 4; "
             "<= 255 blocks per fill", "core start-up latency < app_start_delay",
@@ -285,7 +288,29 @@ class LoadEngine(object):
                        for ch in m.chips.values() for c_ in ch.cores)
         if pre_wait:
             w.probe("preexisting_waiting")
-        use_count = (not pre_wait) and bool(t.draw(2))
+        # use_count=True is documented to assume that the targets are all the
+        # cores of this application waiting; with cores left waiting by an
+        # earlier load the count can *coincide* with the number requested
+        # although cores were missed (pre-existing == missed).  That
+        # coincidence is the documented limitation and is not judged; any
+        # other outcome is.
+        use_count = bool(t.draw(2))
+        self.count_coincidence = False
+
+        def on_count(app, state, n):
+            if app != app_id or state != ST_WAIT:
+                return
+            missing = sum(1 for name, cores in want.items()
+                          for (x, y, p) in cores
+                          if not (m.chips[(x, y)].cores[p].image ==
+                                  binaries[name] and
+                                  m.chips[(x, y)].cores[p].state == ST_WAIT
+                                  and m.chips[(x, y)].cores[p].app_id ==
+                                  app_id))
+            if missing and n == len(requested):
+                self.count_coincidence = True
+                w.probe("count_coincidence_not_judged")
+        m.on_count = on_count
         self.miss_rate = 0.0 if (heal or c.clean()) else \
             [0.0, 0.02, 0.1, 0.4][t.draw(4)]
         before = {xy: ch.core_snapshot() for xy, ch in m.chips.items()}
@@ -375,6 +400,14 @@ class LoadEngine(object):
                                   % (xy[0], xy[1], p, a[:2], b_[:2]),
                                   kind="unrequested-core-changed")
         unchanged_outside()
+        m.on_count = None
+        if status == "ok" and use_count and self.count_coincidence:
+            w.ops[-1] += " -> ok (count coincidence: not judged)"
+            w.ops_completed += 1
+            if t.draw(2):
+                rigcall(w, (c.scp.TimeoutError,), c.mc.send_signal, "stop",
+                        app_id)
+            return
         if status == "ok":
             final = ST_WAIT if wait else ST_RUN
             for name, cores in want.items():
